@@ -11,7 +11,7 @@ import importlib.abc
 import importlib.machinery
 import sys
 
-_SKIP_NAMES = ('super', 'locals', 'globals', 'vars', 'eval', 'exec', 'dir', '__sx_ite__', '__sx_issym__',
+_SKIP_NAMES = ('super', 'locals', 'globals', 'vars', 'eval', 'exec', 'dir', '__sx_ite__', '__sx_issym__', '__sx_isctl__',
                '__sx_call__', '__sx_mod__', '__sx_not__', '__sx_fstr__', '__sx_in__')
 
 
@@ -106,6 +106,17 @@ class T(ast.NodeTransformer):
             ast.copy_location(n, node)
         return new
 
+    def visit_ExceptHandler(self, node):
+        # a bare `except:` must not swallow the engine's control-flow exceptions
+        self.generic_visit(node)
+        if node.type is None or (isinstance(node.type, ast.Name) and node.type.id == 'BaseException'):
+            name = node.name or '__sx_e'
+            guard = ast.If(ast.Call(ast.Name('__sx_isctl__', ast.Load()), [ast.Name(name, ast.Load())], []),
+                           [ast.Raise()], [])
+            new = ast.ExceptHandler(ast.Name('BaseException', ast.Load()), name, [guard] + node.body)
+            return ast.copy_location(new, node)
+        return node
+
     def visit_JoinedStr(self, node):
         self.generic_visit(node)
         parts = []
@@ -160,6 +171,7 @@ class Finder(importlib.abc.MetaPathFinder, importlib.abc.Loader):
         d['__sx_in__'] = hooks.in_
         d['__sx_ite__'] = hooks.ite_
         d['__sx_issym__'] = hooks.issym_
+        d['__sx_isctl__'] = hooks.isctl_
         d['__file__'] = origin
         LOADED[module.__name__] = dict(file=origin, sha1=hashlib.sha1(raw).hexdigest())
         exec(code, d)
